@@ -47,7 +47,7 @@ CLAIMED = {
  "C11": dict(
    text="ClientRouting.tla with explicit request-timer epochs, run with disconnect_on_timeout off and on: every request armed before a clock advance has completed (timed out) after it, a late reply completes nothing, with disconnect-on-timeout the connection is dropped and the remaining requests are re-sent; checked exhaustively on the model and on every recorded execution of the real client (incl. connections that never establish, acks=0 requests, bootstrap requests).",
    ref="DESIGN.md 6.3, 7 (C11)",
-   note="Time advances only in Timeout events; the timer-release clause is observed through pending delayed calls of the virtual clock. The min_timeout of group joins is exercised by the group family."),
+   note="Time advances only in Timeout events; the timer-release clause is observed through pending delayed calls of the virtual clock. The value of the bound (client timeout, or the caller's minimum as a floor - group joins ask for 35 s) and the life of a request's timer (released when the request is answered, times out or is cancelled by its caller, without disturbing other requests on the connection) are checked on the real client with Timeouts.tla as scenario/expectation generator (36 scenarios)."),
  "C20": dict(
    text="ClientRouting.tla with Close enabled in every state (bootstrapping, connecting, requests in flight on several brokers, pruned clients whose connections are still closing) followed by explicit connection-gone events in every order: pending operations fail in the close event, new ones fail, nothing is issued or written afterwards, the cache is empty, the close Deferred fires exactly when the last connection has gone. Goal-directed TLC behaviours (close after two prunes, close during bootstrap, close with queued requests) are replayed on the real client; the broker-client side of close (incl. callbacks that cancel sibling requests re-entrantly) is checked with BrokerConn.tla in the same run.",
    ref="DESIGN.md 6.1, 6.3, 7 (C20)",
